@@ -158,7 +158,7 @@ fn header_code(h: &Header) -> usize {
     }
 }
 
-// @harness props=C15,C03 tiers=quick:M=0|M=2|M=6;thorough:M=0|M=1|M=2|M=3|M=4|M=5|M=6 unwind=22 cap=1500 mem=8 covers=2
+// @harness props=C15 props_thorough=C03,C13 tiers=quick:M=0|M=2|M=6;thorough:M=0|M=1|M=2|M=3|M=4|M=5|M=6 unwind=22 cap=1500 mem=4 covers=2
 // @fn Header::try_from
 // @claim each recognised header name is matched in every letter-case pattern and with whitespace around it, and with nothing else around it: name M with a symbolic case flip on every letter, one arbitrary byte before and one after => recognised (as that header) iff both surrounding bytes are whitespace
 // @bounds the 7 names (one query each); every one of the 2^len case patterns; 1 arbitrary byte on each side
@@ -235,7 +235,7 @@ fn no_colon(s: &[u8]) -> bool {
     true
 }
 
-// @harness props=C15,C02,C03,C04 tiers=quick:K=0,N=2|K=1,N=1|K=1,N=2;thorough:K=0,N=1|K=0,N=2|K=0,N=3|K=1,N=1|K=1,N=2|K=2,N=2|K=3,N=3 unwind=34 cap=1500 mem=10 covers=3
+// @harness props=C15,C02,C03,C04 tiers=experimental:K=0,N=2|K=1,N=1|K=1,N=2 unwind=34 cap=1500 mem=4 covers=3
 // @fn Headers::parse_header_line Header::try_from
 // @stubs std::str::from_utf8(model:RFC3629-validator) core::slice::memchr::memchr(model:first-index-loop)
 // @claim `Content-Length:<value>`: accepted iff the value, after trimming whitespace, is an optional '+' followed by decimal digits denoting a number <= 2^32-1, and then the stored length is that number; otherwise InvalidValue and the stored length is unchanged
@@ -298,7 +298,7 @@ const TOKENS: [&[u8]; 7] = [
     b"text/plain2",
 ];
 
-// @harness props=C15,C13,C16,C03 tiers=quick:M=0,K=0|M=1,K=1|M=3,K=3|M=3,K=4;thorough:M=0,K=0|M=0,K=5|M=1,K=1|M=1,K=2|M=2,K=3|M=2,K=4|M=3,K=3|M=3,K=4|M=3,K=6|M=0,K=3 unwind=36 cap=1500 mem=10 covers=2
+// @harness props=C15,C13,C16,C03 tiers=experimental:M=0,K=0|M=1,K=1|M=3,K=3|M=3,K=4 unwind=36 cap=1500 mem=4 covers=2
 // @fn Headers::parse_header_line Header::try_from MediaType::try_from
 // @stubs std::str::from_utf8(model:RFC3629-validator) core::slice::memchr::memchr(model:first-index-loop)
 // @claim Expect / Transfer-Encoding / Content-Type / Accept: a supported value (100-continue; chunked, identity; text/plain, application/json - modulo surrounding whitespace only) has its documented effect and nothing else changes; every other value is reported as UnsupportedValue and changes nothing
@@ -398,7 +398,7 @@ const MENU: [&[u8]; 7] = [
 ];
 const FW: usize = 16;
 
-// @harness props=C15,C03 tiers=quick:N=2;thorough:N=2|N=3 unwind=56 cap=2400 mem=12 covers=3
+// @harness props=C15,C03 tiers=experimental:N=2 unwind=56 cap=2400 mem=4 covers=3
 // @fn Encoding::try_from
 // @claim Accept-Encoding lists: rejected (InvalidValue) iff some item is `identity;q=0`, or some item is `*;q=0` and identity is not mentioned anywhere in the value - wherever in the list the items stand; accepted otherwise
 // @bounds lists of N items, each drawn symbolically from a 7-entry menu (identity, identity;q=0, *;q=0, gzip, *, identity;q=0.5, deflate;q=0), each in a 16-byte field with 0..2 symbolic leading spaces
@@ -458,7 +458,7 @@ fn c15_accept_encoding_list() {
     std::mem::forget(r);
 }
 
-// @harness props=C15,C03 tiers=quick:N=5;thorough:N=0|N=1|N=3|N=5|N=6 unwind=N+4 cap=1500 mem=8 covers=2
+// @harness props=C15,C03 tiers=experimental:N=5 unwind=N+4 cap=1500 mem=4 covers=2
 // @fn Encoding::try_from
 // @claim short Accept-Encoding values: empty => InvalidRequest; invalid UTF-8 => InvalidUtf8String; `*;q=0` alone (modulo whitespace, in any list position) => InvalidValue; everything else of this length is accepted
 // @bounds every byte string of exactly N bytes
@@ -499,7 +499,7 @@ fn c15_accept_encoding_small() {
     std::mem::forget(r);
 }
 
-// @harness props=C15,C02,C03 tiers=quick:N=2,M=2|N=3,M=0;thorough:N=1,M=1|N=2,M=2|N=3,M=3|N=2,M=0|N=3,M=0|N=4,M=0 unwind=16 cap=1500 mem=10 covers=4
+// @harness props=C15,C02,C03 tiers=experimental:N=2,M=2|N=3,M=0 unwind=16 cap=1500 mem=4 covers=4
 // @fn Headers::parse_header_line Header::try_from Headers::insert_custom_header
 // @stubs std::str::from_utf8(model:RFC3629-validator) core::slice::memchr::memchr(model:first-index-loop)
 // @claim unrecognised header lines: invalid UTF-8 => InvalidUtf8String; no colon => InvalidFormat; `name:value` with an unrecognised name => kept as a custom entry with name and value trimmed, split at the first colon, nothing else changes
@@ -556,7 +556,7 @@ fn c15_generic_line() {
     std::mem::forget(h);
 }
 
-// @harness props=C15,C14,C03 tiers=quick:N=8;thorough:N=0|N=2|N=4|N=6|N=8|N=10 unwind=N+4 cap=1800 mem=10 covers=3
+// @harness props=C15,C14,C03 tiers=experimental:N=8 unwind=N+4 cap=1800 mem=4 covers=3
 // @fn Headers::try_from
 // @claim parsing a header block equals parsing its lines one by one: the block is split at every CRLF (and only there), lines are handed to the line parser in order up to the first empty line, UnsupportedValue is ignored and any other error is returned; non-UTF-8 blocks are InvalidRequest
 // @bounds every ASCII block of exactly N bytes; line parser replaced by the surrogate (logs the extent and an arbitrary byte of every line it is given)
@@ -633,84 +633,51 @@ fn c14_headers_block() {
     std::mem::forget(r);
 }
 
-// @harness props=CXX unwind=30 cap=400 mem=8
-#[kani::proof]
-#[kani::stub(core::slice::memchr::memchr, crate::request::verif_kani::memchr_stub)]
-fn bench_m1() {
-    let mut line = *b"Content-Length: 429496729X";
-    let x: u8 = kani::any();
-    kani::assume(x < 0x80 && x != b':');
-    line[25] = x;
-    let st = unsafe { std::str::from_utf8_unchecked(&line) };
-    let entry = st.splitn(2, ':').collect::<Vec<&str>>();
-    assert!(entry.len() == 2);
-    assert!(entry[0].len() == 14);
-    std::mem::forget(entry);
-}
-
-// @harness props=CXX unwind=30 cap=400 mem=8
-#[kani::proof]
-fn bench_m2() {
-    let mut line = *b" 429496729X";
-    let x: u8 = kani::any();
-    kani::assume(x < 0x80 && x != b':');
-    line[10] = x;
-    let st = unsafe { std::str::from_utf8_unchecked(&line) };
-    let r = st.trim().parse::<u32>();
-    assert!(r.is_ok() == (x >= b'0' && x <= b'5') || x == b' ' || (x >= 9 && x <= 13));
-    std::mem::forget(r);
-}
-
-// @harness props=CXX unwind=30 cap=400 mem=8
+// @harness props=C16,C15 props_thorough=C03 tiers=quick:K=3|K=4|K=6;thorough:K=3|K=4|K=6|K=0 unwind=24 cap=1500 mem=4 covers=2
+// @fn MediaType::try_from MediaType::as_str
+// @stubs std::str::from_utf8(model:RFC3629-validator)
+// @claim media types: accepted iff the bytes, after trimming whitespace only, are exactly `text/plain` or `application/json`, with the matching variant; as_str of the result is that canonical spelling; anything else (including NUL, control or non-ASCII bytes around the token) is rejected
+// @bounds one arbitrary byte, the concrete token K (text/plain, application/json, or a near miss) with its first byte replaced by an arbitrary byte, one arbitrary byte - all three bytes range over 0..=255
 #[kani::proof]
 #[kani::stub(std::str::from_utf8, crate::request::verif_kani::from_utf8_stub)]
-fn bench_m3() {
-    let r = Header::try_from(b"Content-Length");
-    assert!(matches!(r, Ok(Header::ContentLength)));
+fn c16_media_type() {
+    const TL: usize = TOKENS[PK % 7].len();
+    let tok = TOKENS[PK % 7];
+    let mut v = [0u8; TL + 2];
+    let sym: [u8; 3] = kani::any();
+    let mut i = 0;
+    while i < TL {
+        v[1 + i] = tok[i];
+        i += 1;
+    }
+    v[0] = sym[0];
+    v[1] = sym[1];
+    v[TL + 1] = sym[2];
+    let r = MediaType::try_from(&v);
+    // reference: only ASCII whitespace can be trimmed here (a lone byte >= 0x80 is not UTF-8)
+    let want = if !crate::request::verif_kani::utf8_valid(&v) {
+        None
+    } else {
+        let (a, e) = trim_ws(&v);
+        let t = &v[a..e];
+        if eqb(t, b"text/plain") {
+            Some(MediaType::PlainText)
+        } else if eqb(t, b"application/json") {
+            Some(MediaType::ApplicationJson)
+        } else {
+            None
+        }
+    };
+    match (&r, want) {
+        (Ok(m), Some(w)) => {
+            assert!(*m == w, "[C16,C15] media type parsed to the wrong variant");
+            let (a, e) = trim_ws(&v);
+            assert!(eqb(m.as_str().as_bytes(), &v[a..e]), "[C16] as_str differs from the canonical spelling");
+        }
+        (Err(_), None) => {}
+        _ => panic!("[C16,C15] media type acceptance differs from the canonical spellings modulo surrounding whitespace"),
+    }
+    kani::cover!(PK % 7 > 4 || r.is_ok(), "accepted");
+    kani::cover!(r.is_err() && sym[2] < 0x20, "rejected with a control byte after the token");
     std::mem::forget(r);
-}
-
-// @harness props=CXX unwind=30 cap=600 mem=8
-#[kani::proof]
-#[kani::stub(std::str::from_utf8, crate::request::verif_kani::from_utf8_stub)]
-#[kani::stub(core::slice::memchr::memchr, crate::request::verif_kani::memchr_stub)]
-fn bench_cl_1() {
-    let mut line = *b"Content-Length: 429496729X";
-    let x: u8 = kani::any();
-    kani::assume(x < 0x80 && x != b':');
-    line[25] = x;
-    let mut h = Headers::default();
-    let r = h.parse_header_line(&line);
-    assert!(r.is_ok() == (x >= b'0' && x <= b'5'));
-    std::mem::forget(r);
-    std::mem::forget(h);
-}
-
-// @harness props=CXX unwind=30 cap=500 mem=8
-#[kani::proof]
-#[kani::stub(core::slice::memchr::memchr, crate::request::verif_kani::memchr_stub)]
-fn bench_cl_2() {
-    let mut line = *b"Content-Length: 429496729X";
-    let x: u8 = kani::any();
-    kani::assume(x < 0x80 && x != b':');
-    line[25] = x;
-    let mut h = Headers::default();
-    let r = h.parse_header_line(&line);
-    assert!(r.is_ok() == (x >= b'0' && x <= b'5'));
-    std::mem::forget(r);
-    std::mem::forget(h);
-}
-
-// @harness props=CXX unwind=30 cap=500 mem=8
-#[kani::proof]
-fn bench_cl_3() {
-    let mut line = *b"Content-Length: 429496729X";
-    let x: u8 = kani::any();
-    kani::assume(x < 0x80 && x != b':');
-    line[25] = x;
-    let mut h = Headers::default();
-    let r = h.parse_header_line(&line);
-    assert!(r.is_ok() == (x >= b'0' && x <= b'5'));
-    std::mem::forget(r);
-    std::mem::forget(h);
 }
